@@ -276,6 +276,13 @@ pub fn catalogue() -> Vec<Entry> {
             e.hooks.budget = 1;
             continue;
         }
+        if e.name.starts_with("PairingOutput<") {
+            // single target-group elements: one value per run, but every pairing in the catalogue
+            // deserves more than the weight of a heavy curve point
+            e.weight = 4;
+            e.hooks.budget = 0;
+            continue;
+        }
         if HEAVY.iter().any(|h| e.name.contains(h)) {
             e.weight = 1;
             // (containers keep a small element budget; budget 0 marks a single heavy value)
